@@ -652,7 +652,6 @@ def serve_stream_exchange_script(t: int, cancel: bool, cancel_raises: bool, s0: 
 # ---------------------------------------------------------------------------
 
 import contextlib  # noqa: E402
-from http import HTTPStatus  # noqa: E402
 
 from vgi_rpc.http._common import _RpcHttpError  # noqa: E402
 from vgi_rpc.http.server import _app_stream as aps  # noqa: E402
